@@ -220,6 +220,23 @@ pub fn run(ctx: &'static Ctx) -> (&'static str, Value, Vec<&'static str>) {
             end_case();
         }
         s1.count("source_literal_inputs", 4);
+        // every prefix of the literal continued by a multi-byte character (2-, 3- and 4-byte UTF-8),
+        // so that valid non-ASCII text straddles every byte offset behind a recognised prefix
+        if lit.len() <= 12 && lit.is_ascii() {
+            for cut in 1..=lit.len() {
+                for mb in ["é", "€", "😀"] {
+                    let mut v = lit[..cut].to_vec();
+                    v.extend_from_slice(mb.as_bytes());
+                    v.extend_from_slice(mb.as_bytes());
+                    v.resize(24.max(v.len()), b'0');
+                    v.extend_from_slice(&rec);
+                    begin_case(CaseId { a: 8, b: k as u64, c: cut as u64 });
+                    check_bytes(ctx, &v, &format!("source literal #{k} cut at {cut} + multi-byte text"), &mut s1);
+                    end_case();
+                    s1.count("source_literal_multibyte_inputs", 1);
+                }
+            }
+        }
     }
     // (2) all strings of length <= 2; all strings of length 3..=6 (thorough 7) over an 8-symbol alphabet
     let s2: Stats = (0u32..=65536 + 256)
